@@ -273,6 +273,7 @@ def judge_abort_rules(sc, lines_in, impl_out):
 
 class C04(PropBase):
     id = 'C04'
+    address_change = 0.15
     rx_only_gaps = 0.1
     lean_modules = ['Isotp.Props.C04']
     theorems = []
